@@ -83,7 +83,7 @@ theorem C10_third_party_cannot_cancel (e : Env) (y : Sys) (c p : Addr) (oid : Na
   have herr : saoCancel e y.st c p oid = .error "only order creator allowed" := by
     simp [saoCancel, ho, hna, throw, throwThe, MonadExceptOf.throw]
   cases y
-  simp only [step, stepC, atomic, herr]
+  simp only [step, stepBase, stepC, atomic, herr]
   split <;> rfl
 
 end SaoVerif
